@@ -172,9 +172,19 @@ class SubPoly(_polynomial()):
     mapper_method = "map_sub_poly"
 
 
+def _rational():
+    from pymbolic.rational import Rational
+    return Rational
+
+
+class SubRat(_rational()):
+    """user subclass of the stock legacy class Rational (which brings its own __eq__/__hash__)"""
+    mapper_method = "map_sub_rat"
+
+
 USER_CLASSES = {c.__name__: c for c in (
     DBase, DMid, DLeaf, DTwin, DOpts, DInit, LBase, LMid, LLeaf, MAlias, MDeep, MExtra, MExtraSub, MVar,
-    MSum, SubPoly)}
+    MSum, SubPoly, SubRat)}
 USER_CLASSES.update(K.USER_CLASSES)
 
 TYPE_ATOMS = {"<type:float>": float, "<type:int>": int, "<type:complex>": complex}
@@ -298,7 +308,7 @@ def sx_to_obj(s, plain_dict=False):
     if h == "inst":
         cls = class_by_name(s[1])
         args = [sx_to_obj(c, plain_dict=s[1] in NORMALISING) for c in s[3]]
-        if cls.__name__ == "Rational":
+        if cls.__name__ in ("Rational", "SubRat"):
             # the constructor divides by the denominator's unit (ints become floats, and a float
             # denominator is then rejected): set the two init args directly
             o = cls.__new__(cls)
